@@ -1,8 +1,11 @@
 CONSTANTS
   Jobs <- Menu
-  KeyByHw = TRUE
-  CopyAttrs = FALSE
-  MaxLen = 3
+  FineRb = TRUE
+  FineRe = TRUE
+  ProtRb = FALSE
+  ProtAcl = TRUE
+  ProtOrd = TRUE
+  MaxLen = 2
 INIT Init
 NEXT Next
 CONSTRAINT Bound
